@@ -67,13 +67,21 @@ def _model_spec(rng, mid):
             elif o < 0.55:
                 spec['ctor']['sample_size'] = rng.choice([10, 30])
             elif o < 0.65:
-                spec['ctor']['weights'] = 'ramp'
+                spec['ctor']['weights'] = rng.choice(['ramp', 'ramp_int', 'ramp_int_list'])
         if cls.endswith('TruncatedGaussian') and rng.random() < 0.5:
             spec['ctor'] = {'minimum': -60.0, 'maximum': 90.0}
     elif r < 0.5:
         spec['cls'] = zoo.UNI_WRAPPER
         spec['data'] = zoo.rand_uni_dataspec(rng, 20, 80)
-        if rng.random() < 0.7:
+        r_ = rng.random()
+        if r_ < 0.2:
+            # configured instances as candidates (options must survive the round trip)
+            spec['ctor']['candidates'] = [
+                {'__inst__': zoo.UNI_FAMILIES[3], 'ctor': {'bw_method': rng.choice([0.3, 'silverman'])}},
+                {'__inst__': zoo.UNI_FAMILIES[6], 'ctor': {'minimum': -80.0, 'maximum': 120.0}}]
+            if rng.random() < 0.5:
+                spec['ctor']['candidates'] = spec['ctor']['candidates'][:1]
+        elif r_ < 0.75:
             spec['ctor']['candidates'] = [{'__cls__': c} for c in rng.sample(
                 zoo.FAST_UNI + [zoo.UNI_FAMILIES[6], zoo.UNI_FAMILIES[2]], rng.randint(1, 3))]
         else:
@@ -219,6 +227,10 @@ def _build(spec):
     n = (spec.get('data') or {}).get('n', 0)
     if ctor.get('weights') == 'ramp':
         ctor['weights'] = {'__nd__': [1.0 + (i % 5) for i in range(n)]}
+    elif ctor.get('weights') == 'ramp_int':
+        ctor['weights'] = {'__ndint__': [1 + (i % 5) for i in range(n)]}   # observation counts
+    elif ctor.get('weights') == 'ramp_int_list':
+        ctor['weights'] = [1 + (i % 5) for i in range(n)]
     sp = dict(spec, ctor=ctor)
     model = zoo.build_model(sp, seed=False)
     data = None
